@@ -120,7 +120,11 @@ def one(case):
     fl, withx = case[0], case[1]
     forced = case[2] if len(case) > 2 else None
     d = g.newdir("b")
-    write_module(d, files, modpath="example.com/c09")
+    # -ldflags=-X decides at compile time which declaration stays in clear but is not part of the compile cache key
+    # (known finding of C06): give the -X builds their own source text so that they never share an object with the others
+    fs = dict(files)
+    if withx: fs["main.go"] = files["main.go"] + "\n// built with -ldflags=-X\n"
+    write_module(d, fs, modpath="example.com/c09")
     args = ["-o", "out"] + (["-ldflags=" + XT] if withx else []) + ["."]
     refp = ref
     if withx:
